@@ -12,18 +12,24 @@ Lemma ok_inj2 {A} (x y : A) : @Ok A x = Ok y -> x = y.
 Proof. congruence. Qed.
 
 (** ---------------------------------------------------------------- the pure naming of one coarse node *)
-Inductive desc := Old (v : pyval) | New (e : pystr).
-Fixpoint assign (used : list pyval) (idx : Z) (ds : list desc) : res (list pyval) :=
+(** an atom of the coarse node is either already named (Old, with its name) or new (New, with its element and whether it
+    belongs to several fragments) *)
+Inductive desc := Old (v : pyval) | New (e : pystr) (sh : bool).
+Definition taken_of (used shn : list pyval) (sh : bool) : list pyval := if sh then used ++ shn else used.
+Fixpoint assign (used shn : list pyval) (idx : Z) (ds : list desc) : res (list pyval * list pyval) :=
   match ds with
-  | [] => Ok []
-  | Old v :: r => vs <- assign used (idx + 1) r ;; Ok (v :: vs)
-  | New e :: r =>
-      i <- bump_idx (Datatypes.S (length used)) used e idx ;;
-      vs <- assign used (i + 1) r ;;
-      Ok (VStr (atom_label e i) :: vs)
+  | [] => Ok ([], shn)
+  | Old v :: r => '(vs, s') <- assign used shn (idx + 1) r ;; Ok (v :: vs, s')
+  | New e sh :: r =>
+      i <- bump_idx (Datatypes.S (length (taken_of used shn sh))) (taken_of used shn sh) e idx ;;
+      let nm := VStr (atom_label e i) in
+      '(vs, s') <- assign used (if sh then nm :: shn else shn) (i + 1) r ;;
+      Ok (nm :: vs, s')
   end.
-Definition olds (ds : list desc) : list pyval := flat_map (fun d => match d with Old v => [v] | New _ => [] end) ds.
-Definition news (ds : list desc) : list pystr := flat_map (fun d => match d with Old _ => [] | New e => [e] end) ds.
+Definition olds (ds : list desc) : list pyval := flat_map (fun d => match d with Old v => [v] | New _ _ => [] end) ds.
+Definition news (ds : list desc) : list pystr := flat_map (fun d => match d with Old _ => [] | New e _ => [e] end) ds.
+Definition shared_news (ds : list desc) (vs : list pyval) : list pyval :=
+  flat_map (fun dv => match fst dv with New _ true => [snd dv] | _ => [] end) (combine ds vs).
 
 Lemma bump_spec fuel used e : forall idx i, bump_idx fuel used e idx = Ok i -> idx <= i /\ name_taken used (atom_label e i) = false.
 Proof.
@@ -38,39 +44,366 @@ Proof.
 Qed.
 
 Section Assign.
-  (** the labels element ++ str(index) of the elements at hand determine the index *)
   Variable E : list pystr.
   Hypothesis Hinj : forall e e' i j, In e E -> In e' E -> 0 <= i -> 0 <= j -> atom_label e i = atom_label e' j -> i = j.
 
-  Lemma assign_spec used ds : forall idx vs, 0 <= idx -> incl (news ds) E -> incl (olds ds) used -> NoDup (olds ds) ->
-    assign used idx ds = Ok vs ->
-    NoDup vs /\ length vs = length ds /\
-    forall v, In v vs -> In v (olds ds) \/ exists e i, In e E /\ idx <= i /\ v = VStr (atom_label e i) /\ ~ In v used.
+  (** what the value at a position is, relative to the names taken at the START of the pass *)
+  Definition good (used shn0 : list pyval) (idx : Z) (d : desc) (v : pyval) : Prop :=
+    match d with
+    | Old w => v = w
+    | New e sh => In e E /\ exists i, idx <= i /\ v = VStr (atom_label e i) /\ ~ In v used /\ (sh = true -> ~ In v shn0)
+    end.
+  Lemma good_weaken used shn0 shn1 idx idx' d v : idx <= idx' -> incl shn0 shn1 -> good used shn1 idx' d v -> good used shn0 idx d v.
   Proof.
-    induction ds as [|d r IH]; intros idx vs H0 HE Hu Hn H; cbn [assign] in H.
-    - apply ok_inj2 in H. subst. repeat split; [constructor|]. intros v [].
-    - destruct d as [v0|e].
-      + destruct (assign used (idx + 1) r) as [vs'|] eqn:Er; cbn [bind] in H; [|discriminate]. apply ok_inj2 in H. subst vs.
+    intros Hi Hs. destruct d as [w|e sh]; cbn; [auto|]. intros [He (i & Hl & Hv & Hu & Hsn)]. split; [exact He|].
+    exists i. repeat split; auto; [lia|]. intros T X. apply (Hsn T). now apply Hs.
+  Qed.
+  Lemma forall2_in {A B} (P : A -> B -> Prop) l m : Forall2 P l m -> forall b, In b m -> exists a, In a l /\ P a b.
+  Proof. induction 1 as [|a b l m Hab F IH]; intros x []; [subst; exists a; split; [now left|assumption]|]. destruct (IH x H) as [a' [Ha Hp]]. exists a'. split; [now right|assumption]. Qed.
+
+  Lemma Forall2_impl {A B} (P Q : A -> B -> Prop) l m : (forall a b, P a b -> Q a b) -> Forall2 P l m -> Forall2 Q l m.
+  Proof. intros H. induction 1; constructor; auto. Qed.
+
+  Lemma assign_spec used ds : forall shn idx vs shn', 0 <= idx -> incl (news ds) E -> incl (olds ds) used -> NoDup (olds ds) ->
+    assign used shn idx ds = Ok (vs, shn') ->
+    NoDup vs /\ Forall2 (good used shn idx) ds vs /\ (forall x, In x shn' <-> In x shn \/ In x (shared_news ds vs)).
+  Proof.
+    induction ds as [|d r IH]; intros shn idx vs shn' H0 HE Hu Hn H; cbn [assign] in H.
+    - apply ok_inj2 in H. injection H as <- <-. repeat split; try constructor; cbn; tauto.
+    - destruct d as [v0|e sh].
+      + destruct (assign used shn (idx + 1) r) as [[vs' s']|] eqn:Er; cbn [bind] in H; [|discriminate H]. apply ok_inj2 in H. injection H as <- <-.
         cbn in HE, Hu, Hn. inversion Hn as [|? ? Hx Hr]; subst.
-        destruct (IH (idx + 1) vs' ltac:(lia) HE (fun x Hx' => Hu x (or_intror Hx')) Hr Er) as [N [L P]].
-        repeat split; [constructor; [|exact N]|cbn; now rewrite L|].
-        * intros X. destruct (P _ X) as [Hin|(e & i & _ & _ & _ & Hni)]; [contradiction|]. apply Hni. apply Hu. now left.
-        * intros v [<-|Hv]; [left; now left|]. destruct (P v Hv) as [?|(e & i & He & Hi & Hv' & Hni)]; [left; now right|].
-          right. exists e, i. repeat split; auto. lia.
-      + destruct (bump_idx (Datatypes.S (length used)) used e idx) as [i|] eqn:Eb; cbn [bind] in H; [|discriminate].
-        destruct (assign used (i + 1) r) as [vs'|] eqn:Er; cbn [bind] in H; [|discriminate]. apply ok_inj2 in H. subst vs.
+        destruct (IH shn (idx + 1) vs' s' ltac:(lia) HE (fun x Hx' => Hu x (or_intror Hx')) Hr Er) as [N [F P]].
+        split; [|split].
+        * constructor; [|exact N]. intros X. destruct (forall2_in _ _ _ F _ X) as [d [Hd Hg]]. destruct d as [w|e sh]; cbn in Hg.
+          -- subst w. apply Hx. unfold olds. apply in_flat_map. exists (Old v0). split; [exact Hd|now left].
+          -- destruct Hg as [_ (i & _ & _ & Hnu & _)]. apply Hnu. apply Hu. now left.
+        * constructor; [reflexivity|]. eapply Forall2_impl; [|exact F]. intros d v. apply good_weaken; [lia|apply incl_refl].
+        * intros x. rewrite P. cbn. tauto.
+      + destruct (bump_idx _ (taken_of used shn sh) e idx) as [i|] eqn:Eb; cbn [bind] in H; [|discriminate H].
+        destruct (assign used (if sh then VStr (atom_label e i) :: shn else shn) (i + 1) r) as [[vs' s']|] eqn:Er; cbn [bind] in H; [|discriminate H].
+        apply ok_inj2 in H. injection H as <- <-.
         destruct (bump_spec _ _ _ _ _ Eb) as [Hle T]. pose proof (not_taken _ _ T) as Hnt.
         cbn in HE, Hu, Hn. assert (In e E) as HeE by (apply HE; now left).
-        destruct (IH (i + 1) vs' ltac:(lia) (fun x Hx' => HE x (or_intror Hx')) Hu Hn Er) as [N [L P]].
-        repeat split; [constructor; [|exact N]|cbn; now rewrite L|].
-        * intros X. destruct (P _ X) as [Hin|(e' & j & He' & Hj & Hv & _)]; [apply Hnt; now apply Hu|].
-          inversion Hv as [Hl]. apply (Hinj e e' i j) in Hl; auto; lia.
-        * intros v [<-|Hv]; [right; exists e, i; repeat split; auto; lia|].
-          destruct (P v Hv) as [?|(e' & j & He' & Hj & Hv' & Hni)]; [now left|]. right. exists e', j. repeat split; auto. lia.
+        assert (~ In (VStr (atom_label e i)) used) as Hnu by (intros X; apply Hnt; unfold taken_of; destruct sh; [apply in_or_app; now left|exact X]).
+        assert (sh = true -> ~ In (VStr (atom_label e i)) shn) as Hns by (intros -> X; apply Hnt; unfold taken_of; apply in_or_app; now right).
+        destruct (IH _ (i + 1) vs' s' ltac:(lia) (fun x Hx' => HE x (or_intror Hx')) Hu Hn Er) as [N [F P]].
+        split; [|split].
+        * constructor; [|exact N]. intros X. destruct (forall2_in _ _ _ F _ X) as [d [Hd Hg]]. destruct d as [w|e' sh']; cbn in Hg.
+          -- subst w. apply Hnu. apply Hu. unfold olds. apply in_flat_map. exists (Old (VStr (atom_label e i))). split; [exact Hd|now left].
+          -- destruct Hg as [He' (j & Hj & Hv & _)]. inversion Hv as [Hl]. apply (Hinj e e' i j) in Hl; auto; lia.
+        * constructor; [cbn; split; [exact HeE|]; exists i; repeat split; auto|].
+          eapply Forall2_impl; [|exact F]. intros d v. apply good_weaken; [lia|]. destruct sh; [intros x Hx; now right|apply incl_refl].
+        * intros x. rewrite P. cbn [shared_news combine flat_map fst snd]. destruct sh; cbn; rewrite ?in_app_iff; cbn; tauto.
   Qed.
 End Assign.
 
+(** ---------------------------------------------------------------- the loop over one coarse node computes [assign] *)
+From CGV Require Import Resolve.FragidProofs.
+
 Definition name_in (mol : graph) (n : Z) : option pyval := node_get mol n (S "atomname").
+Definition desc_of (mol : graph) (named : list Z) (n : Z) : res desc :=
+  a <- node_attrs mol n ;;
+  if zin_l n named then v <- of_option (aget (S "atomname") a) EKey ;; Ok (Old v)
+  else sh <- fragid_shared a ;; el <- of_option (aget (S "element") a) EKey ;; e <- as_str el ;; Ok (New e sh).
+
+Lemma zin_l_In k l : zin_l k l = true <-> In k l.
+Proof.
+  unfold zin_l. rewrite existsb_exists. split; [intros [x [H E]]; apply Z.eqb_eq in E; now subst|].
+  intros H. exists k. split; [exact H|apply Z.eqb_refl].
+Qed.
+Lemma zin_l_cons k n l : k <> n -> zin_l k (n :: l) = zin_l k l.
+Proof. intros N. unfold zin_l. cbn. destruct (Z.eqb_spec k n); [contradiction|reflexivity]. Qed.
+Lemma node_get_attrs mol n a : node_attrs mol n = Ok a -> name_in mol n = aget (S "atomname") a.
+Proof. unfold node_attrs, name_in, node_get. destruct (gfind n mol); [|discriminate]. intros H. apply ok_inj2 in H. now subst. Qed.
+Lemma map_res_ext_in {A B} (f g : A -> res B) l : (forall x, In x l -> f x = g x) -> GraphOps.map_res f l = GraphOps.map_res g l.
+Proof.
+  induction l as [|x r IH]; intros H; [reflexivity|]. cbn [GraphOps.map_res]. rewrite (H x) by now left.
+  rewrite IH; [reflexivity|]. intros y Hy. apply H. now right.
+Qed.
+
+Lemma inner_fold mn used : forall nodes mol fgs named shn idx mol' fgs' named' shn' idx', NoDup nodes ->
+  GraphOps.fold_res (name_node mn used) nodes (mol, fgs, named, shn, idx) = Ok (mol', fgs', named', shn', idx') ->
+  exists ds vs, GraphOps.map_res (desc_of mol named) nodes = Ok ds /\ assign used shn idx ds = Ok (vs, shn') /\
+    map (name_in mol') nodes = map Some vs /\
+    (forall k, ~ In k nodes -> node_attrs mol' k = node_attrs mol k) /\
+    (forall k, In k named' <-> In k named \/ In k nodes).
+Proof.
+  induction nodes as [|n r IH]; intros mol fgs named shn idx mol' fgs' named' shn' idx' Hn H.
+  - cbn in H. apply ok_inj2 in H. injection H as -> -> -> -> ->. exists [], [].
+    split; [reflexivity|]. split; [reflexivity|]. split; [reflexivity|]. split; [auto|]. intros k. cbn. tauto.
+  - cbn [GraphOps.fold_res] in H. destruct (name_node mn used (mol, fgs, named, shn, idx) n) as [st1|] eqn:E1; cbn [bind] in H; [|discriminate H].
+    destruct (name_node_inv _ _ _ _ _ _ _ _ _ E1) as (mol1 & named1 & shn1 & idx1 & a1 & nm & Hcase & Ha1 & Hnm & ->).
+    inversion Hn as [|? ? Hnr Hr]; subst.
+    destruct (IH _ _ _ _ _ _ _ _ _ _ Hr H) as (ds' & vs' & Hds & Has & Hnames & Hkeep & Hnamed).
+    assert (forall m, In m r -> desc_of mol1 named1 m = desc_of mol named m) as Hext.
+    { intros m Hm. assert (m <> n) as Nm by (intros ->; contradiction). unfold desc_of.
+      destruct Hcase as [(_ & -> & -> & _)|(_ & a & sh & el & e & _ & _ & _ & _ & _ & -> & -> & _)]; [reflexivity|].
+      now rewrite attrs_set_other, zin_l_cons. }
+    rewrite (map_res_ext_in _ _ r Hext) in Hds.
+    assert (name_in mol' n = Some nm) as Hhead.
+    { rewrite (node_get_attrs mol' n a1); [exact Hnm|]. now rewrite (Hkeep n Hnr). }
+    destruct Hcase as [(Hz & -> & -> & -> & ->)|(Hz & a & sh & el & e & Ha & Hsh & Hel & He & Hb & -> & -> & ->)].
+    + exists (Old nm :: ds'), (nm :: vs'). split; [|split; [|split; [|split]]].
+      * cbn [GraphOps.map_res]. unfold desc_of at 1. rewrite Ha1, Hz. cbn [bind]. rewrite Hnm. cbn [of_option bind]. now rewrite Hds.
+      * cbn [assign]. now rewrite Has.
+      * cbn [map]. now rewrite Hhead, Hnames.
+      * intros k Hk. apply Hkeep. intros X. apply Hk. now right.
+      * intros k. rewrite Hnamed. cbn. split; [intros [?|?]; auto|intros [?|[<-|?]]; auto]. left. now apply zin_l_In.
+    + assert (nm = VStr (atom_label e idx1)) as ->.
+      { rewrite (attrs_set_same mol n _ _ a Ha) in Ha1. apply ok_inj2 in Ha1. subst a1. rewrite aget_aset_same in Hnm. congruence. }
+      exists (New e sh :: ds'), (VStr (atom_label e idx1) :: vs'). split; [|split; [|split; [|split]]].
+      * cbn [GraphOps.map_res]. unfold desc_of at 1. rewrite Ha, Hz. cbn [bind]. rewrite Hsh. cbn [bind]. rewrite Hel. cbn [of_option bind].
+        rewrite He. cbn [bind]. now rewrite Hds.
+      * cbn [assign]. unfold taken_of. rewrite Hb. cbn [bind]. now rewrite Has.
+      * cbn [map]. now rewrite Hhead, Hnames.
+      * intros k Hk. rewrite Hkeep by (intros X; apply Hk; now right). apply attrs_set_other. intros ->. apply Hk. now left.
+      * intros k. rewrite Hnamed. cbn. tauto.
+Qed.
+
+(** ---------------------------------------------------------------- one coarse node, then all of them *)
+Definition fsv (o : option pyval) : res bool :=
+  match o with
+  | None => Ok false
+  | Some (VList l) | Some (VTup l) => Ok (Nat.ltb 1 (length l))
+  | Some (VStr s) => Ok (Nat.ltb 1 (length s))
+  | Some (VDict d) => Ok (Nat.ltb 1 (length d))
+  | Some _ => Err EType
+  end.
+Lemma fragid_shared_fsv a : fragid_shared a = fsv (aget (S "fragid") a).
+Proof. reflexivity. Qed.
+(** "belongs to several fragments", read from a fixed fragid lookup F (the naming never touches 'fragid') *)
+Definition is_sh (F : Z -> option pyval) (n : Z) : Prop := fsv (F n) = Ok true.
+
+Lemma olds_used mol named : forall nodes ds used, GraphOps.map_res (desc_of mol named) nodes = Ok ds ->
+  used_names mol named nodes = Ok used -> olds ds = used.
+Proof.
+  unfold used_names. induction nodes as [|n r IH]; intros ds used Hd Hu.
+  - cbn in Hd, Hu. apply ok_inj2 in Hd, Hu. now subst.
+  - cbn [GraphOps.map_res] in Hd. destruct (desc_of mol named n) as [d|] eqn:Ed; cbn [bind] in Hd; [|discriminate Hd].
+    destruct (GraphOps.map_res (desc_of mol named) r) as [ds'|] eqn:Er; cbn [bind] in Hd; [|discriminate Hd]. apply ok_inj2 in Hd. subst ds.
+    unfold desc_of in Ed. cbn [filter] in Hu. destruct (node_attrs mol n) as [a|] eqn:Ea; cbn [bind] in Ed; [|discriminate Ed].
+    destruct (zin_l n named).
+    + cbn [GraphOps.map_res] in Hu. rewrite Ea in Hu. cbn [bind] in Hu.
+      destruct (aget (S "atomname") a) as [v|]; cbn [of_option bind] in Ed, Hu; [|discriminate Ed]. apply ok_inj2 in Ed. subst d.
+      destruct (GraphOps.map_res _ (filter _ r)) as [us|] eqn:Eu; cbn [bind] in Hu; [|discriminate Hu]. apply ok_inj2 in Hu. subst used.
+      cbn. f_equal. now apply IH.
+    + destruct (fragid_shared a); cbn [bind] in Ed; [|discriminate Ed].
+      destruct (aget (S "element") a); cbn [of_option bind] in Ed; [|discriminate Ed]. destruct (as_str p); cbn [bind] in Ed; [|discriminate Ed].
+      apply ok_inj2 in Ed. subst d. cbn. now apply IH.
+Qed.
+Lemma used_map mol named : forall nodes used, used_names mol named nodes = Ok used ->
+  map Some used = map (name_in mol) (filter (fun n => zin_l n named) nodes).
+Proof.
+  unfold used_names. intros nodes. generalize (filter (fun n => zin_l n named) nodes). induction l as [|n r IH]; intros used H; cbn [GraphOps.map_res] in H.
+  - apply ok_inj2 in H. now subst.
+  - destruct (node_attrs mol n) as [a|] eqn:Ea; cbn [bind] in H; [|discriminate H].
+    destruct (aget (S "atomname") a) as [v|] eqn:Ev; cbn [of_option bind] in H; [|discriminate H].
+    destruct (GraphOps.map_res _ r) as [us|] eqn:Eu; cbn [bind] in H; [|discriminate H]. apply ok_inj2 in H. subst used.
+    cbn [map]. rewrite (node_get_attrs mol n a Ea), Ev. f_equal. now apply IH.
+Qed.
+Lemma NoDup_map_inj_in {A B} (f : A -> B) l : NoDup l -> (forall x y, In x l -> In y l -> f x = f y -> x = y) -> NoDup (map f l).
+Proof.
+  induction 1 as [|x r Hx Hr IH]; intros Hi; cbn; constructor.
+  - intros X. apply in_map_iff in X as [y [E Hy]]. apply Hx. rewrite (Hi x y); auto; [now left|now right].
+  - apply IH. intros a b Ha Hb. apply Hi; now right.
+Qed.
+Lemma nodup_map_eq {A B} (f : A -> B) l x y : NoDup (map f l) -> In x l -> In y l -> f x = f y -> x = y.
+Proof.
+  induction l as [|a r IH]; cbn; intros H Hx Hy E; [contradiction|]. inversion H as [|? ? Ha Hr]; subst.
+  destruct Hx as [<-|Hx]; destruct Hy as [<-|Hy]; auto.
+  - exfalso. apply Ha. rewrite E. now apply in_map.
+  - exfalso. apply Ha. rewrite <- E. now apply in_map.
+Qed.
+Lemma positional {A B C} (f : A -> res B) (g : A -> option C) (P : B -> C -> Prop) : forall nodes ds vs,
+  GraphOps.map_res f nodes = Ok ds -> map g nodes = map Some vs -> Forall2 P ds vs ->
+  forall n, In n nodes -> exists d v, f n = Ok d /\ g n = Some v /\ P d v /\ In (d, v) (combine ds vs).
+Proof.
+  induction nodes as [|x r IH]; intros ds vs Hd Hv F n Hn; [contradiction|].
+  cbn [GraphOps.map_res] in Hd. destruct (f x) as [d|] eqn:Ed; cbn [bind] in Hd; [|discriminate Hd].
+  destruct (GraphOps.map_res f r) as [ds'|] eqn:Er; cbn [bind] in Hd; [|discriminate Hd]. apply ok_inj2 in Hd. subst ds.
+  destruct vs as [|v vs']; [discriminate|]. cbn [map] in Hv. injection Hv as Hv1 Hv2. inversion F; subst.
+  destruct Hn as [<-|Hn].
+  - exists d, v. repeat split; auto. now left.
+  - destruct (IH ds' vs' eq_refl Hv2 H4 n Hn) as (d' & v' & A1 & A2 & A3 & A4). exists d', v'. repeat split; auto. now right.
+Qed.
+
+Section Unique.
+  Variable E : list pystr.
+  Hypothesis Hinj : forall e e' i j, In e E -> In e' E -> 0 <= i -> 0 <= j -> atom_label e i = atom_label e' j -> i = j.
+  Definition elemsE (mol : graph) : Prop := forall k el, node_get mol k (S "element") = Some (VStr el) -> In el E.
+
+  Lemma news_in_E mol named : elemsE mol -> forall nodes ds, GraphOps.map_res (desc_of mol named) nodes = Ok ds -> incl (news ds) E.
+  Proof.
+    intros HE. induction nodes as [|n r IH]; intros ds Hd; cbn [GraphOps.map_res] in Hd.
+    - apply ok_inj2 in Hd. subst. intros x [].
+    - destruct (desc_of mol named n) as [d|] eqn:Ed; cbn [bind] in Hd; [|discriminate Hd].
+      destruct (GraphOps.map_res (desc_of mol named) r) as [ds'|] eqn:Er; cbn [bind] in Hd; [|discriminate Hd]. apply ok_inj2 in Hd. subst ds.
+      unfold desc_of in Ed. destruct (node_attrs mol n) as [a|] eqn:Ea; cbn [bind] in Ed; [|discriminate Ed].
+      destruct (zin_l n named).
+      + destruct (aget (S "atomname") a); cbn [of_option bind] in Ed; [|discriminate Ed]. apply ok_inj2 in Ed. subst d. cbn. now apply IH.
+      + destruct (fragid_shared a); cbn [bind] in Ed; [|discriminate Ed].
+        destruct (aget (S "element") a) as [el|] eqn:Eel; cbn [of_option bind] in Ed; [|discriminate Ed].
+        destruct el; cbn in Ed; try discriminate Ed. apply ok_inj2 in Ed. subst d. cbn. intros x [<-|Hx]; [|now apply (IH ds')].
+        apply (HE n). unfold node_get. unfold node_attrs in Ea. destruct (gfind n mol); [|discriminate Ea]. apply ok_inj2 in Ea. now subst.
+  Qed.
+
+  (** the naming touches the attribute 'atomname' only *)
+  Lemma node_get_set_other2 g j a v k key : key <> a -> node_get (set_node_attr g j a v) k key = node_get g k key.
+  Proof.
+    intros N. unfold node_get, set_node_attr. destruct (Z.eq_dec k j) as [->|Nk].
+    - rewrite gfind_gupdate_same by reflexivity. destruct (gfind j g); cbn; [now apply aget_aset_other|reflexivity].
+    - now rewrite gfind_gupdate_other.
+  Qed.
+  Lemma name_group2_other_keys st grp st' : name_group2 st grp = Ok st' ->
+    forall k key, key <> S "atomname" -> node_get (ns_mol st') k key = node_get (ns_mol st) k key.
+  Proof.
+    intros H. unfold name_group2 in H. destruct st as [[[m f] nd] sn].
+    destruct (used_names m nd (snd grp)) as [used|]; cbn [bind] in H; [|discriminate H].
+    match type of H with bind ?x _ = _ => destruct x as [r2|] eqn:E2 end; cbn [bind] in H; [|discriminate H]. apply ok_inj2 in H. subst st'.
+    set (P := fun st : nstate * Z => forall k key, key <> S "atomname" -> node_get (ns_mol (fst st)) k key = node_get m k key).
+    assert (forall s1 x s2, P s1 -> name_node (fst grp) used s1 x = Ok s2 -> P s2) as Hstep.
+    { intros s1 x s2 H1 Hx k key Hk. destruct (name_node_mol _ _ _ _ _ Hx) as [->|[v ->]]; [now apply H1|].
+      rewrite node_get_set_other2 by exact Hk. now apply H1. }
+    assert (P (m, f, nd, sn, 0)) as Hinit by (intros k key Hk; reflexivity).
+    exact (fold_res_inv P (name_node (fst grp) used) (snd grp) Hstep _ _ Hinit E2).
+  Qed.
+
+  (** one coarse node: its names become pairwise distinct and the invariants about shared atoms are kept *)
+  Lemma group_step F mol fgs named shn mn nodes mol1 fgs1 named1 shn1 :
+    name_group2 (mol, fgs, named, shn) (mn, nodes) = Ok (mol1, fgs1, named1, shn1) -> NoDup nodes -> elemsE mol ->
+    (forall k, node_get mol k (S "fragid") = F k) ->
+    (forall n, In n nodes -> In n named -> is_sh F n) ->
+    (forall n, In n named -> is_sh F n -> exists v, name_in mol n = Some v /\ In v shn) ->
+    (forall n1 n2, In n1 named -> In n2 named -> is_sh F n1 -> is_sh F n2 -> name_in mol n1 = name_in mol n2 -> n1 = n2) ->
+    NoDup (map (name_in mol1) nodes) /\
+    (forall k, In k named1 <-> In k named \/ In k nodes) /\
+    (forall k, In k named -> name_in mol1 k = name_in mol k) /\
+    (forall n, In n named1 -> is_sh F n -> exists v, name_in mol1 n = Some v /\ In v shn1) /\
+    (forall n1 n2, In n1 named1 -> In n2 named1 -> is_sh F n1 -> is_sh F n2 -> name_in mol1 n1 = name_in mol1 n2 -> n1 = n2).
+  Proof.
+    intros H Hn HE HF Hsh J2 J3. unfold name_group2 in H. cbn [fst snd] in H.
+    destruct (used_names mol named nodes) as [used|] eqn:Hu; cbn [bind] in H; [|discriminate H].
+    match type of H with bind ?x _ = _ => destruct x as [[[[[m f] nd] sn] ix]|] eqn:Ef end; cbn [bind] in H; [|discriminate H].
+    apply ok_inj2 in H. cbn [fst] in H. injection H as -> -> -> ->.
+    destruct (inner_fold mn used nodes mol fgs named shn 0 mol1 fgs1 named1 shn1 ix Hn Ef) as (ds & vs & Hds & Has & Hnames & Hkeep & Hnamed).
+    pose proof (olds_used _ _ _ _ _ Hds Hu) as Ho.
+    (* the already-named atoms of this coarse node carry distinct names *)
+    assert (NoDup used) as Hnd.
+    { apply (NoDup_map_inv Some). rewrite (used_map _ _ _ _ Hu). apply NoDup_map_inj_in; [now apply NoDup_filter|].
+      intros x y Hx Hy Exy. apply filter_In in Hx as [Hx1 Hx2]. apply filter_In in Hy as [Hy1 Hy2].
+      apply zin_l_In in Hx2, Hy2. apply J3; auto. }
+    destruct (assign_spec E Hinj used ds shn 0 vs shn1 ltac:(lia) (news_in_E mol named HE nodes ds Hds)) as [N [F2 P]]; auto.
+    { rewrite Ho. apply incl_refl. } { now rewrite Ho. }
+    assert (NoDup (map (name_in mol1) nodes)) as Huniq
+      by (rewrite Hnames; apply FinFun.Injective_map_NoDup; [intros x y Exy; congruence|exact N]).
+    pose proof (positional _ _ _ nodes ds vs Hds Hnames F2) as Pos.
+    (* names of atoms named before this pass are kept *)
+    assert (forall k, In k named -> name_in mol1 k = name_in mol k) as Hold.
+    { intros k Hk. destruct (in_dec Z.eq_dec k nodes) as [Hin|Hout].
+      - destruct (Pos k Hin) as (d & v & Hd & Hv & Hg & _). unfold desc_of in Hd.
+        destruct (node_attrs mol k) as [a|] eqn:Ea; cbn [bind] in Hd; [|discriminate Hd].
+        apply zin_l_In in Hk. rewrite Hk in Hd. destruct (aget (S "atomname") a) as [w|] eqn:Ew; cbn [of_option bind] in Hd; [|discriminate Hd].
+        apply ok_inj2 in Hd. subst d. cbn in Hg. subst v. now rewrite Hv, (node_get_attrs mol k a Ea).
+      - unfold name_in, node_get. pose proof (Hkeep k Hout) as Ek. unfold node_attrs in Ek.
+        destruct (gfind k mol1), (gfind k mol); try discriminate; [apply ok_inj2 in Ek; now rewrite Ek|reflexivity]. }
+    (* a new atom of this pass that belongs to several fragments: its name is in shn1 and was not in shn *)
+    assert (forall n, In n nodes -> ~ In n named -> is_sh F n ->
+              exists v, name_in mol1 n = Some v /\ In v shn1 /\ ~ In v shn) as Hnew.
+    { intros n Hin Hnn Hs. destruct (Pos n Hin) as (d & v & Hd & Hv & Hg & Hc). unfold desc_of in Hd.
+      destruct (node_attrs mol n) as [a|] eqn:Ea; cbn [bind] in Hd; [|discriminate Hd].
+      assert (zin_l n named = false) as Hz by (destruct (zin_l n named) eqn:Z1; [apply zin_l_In in Z1; contradiction|reflexivity]).
+      rewrite Hz in Hd. destruct (fragid_shared a) as [sh|] eqn:Es; cbn [bind] in Hd; [|discriminate Hd].
+      destruct (aget (S "element") a) as [el|]; cbn [of_option bind] in Hd; [|discriminate Hd].
+      destruct (as_str el) as [e|]; cbn [bind] in Hd; [|discriminate Hd]. apply ok_inj2 in Hd. subst d.
+      assert (sh = true) as ->.
+      { unfold is_sh in Hs. rewrite <- HF in Hs. unfold node_get in Hs. unfold node_attrs in Ea.
+        destruct (gfind n mol); [|discriminate Ea]. apply ok_inj2 in Ea. subst a. rewrite fragid_shared_fsv in Es. congruence. }
+      cbn in Hg. destruct Hg as [_ (i & _ & -> & _ & Hns)]. exists (VStr (atom_label e i)). repeat split; auto.
+      apply P. right. unfold shared_news. apply in_flat_map. exists (New e true, VStr (atom_label e i)). split; [exact Hc|now left]. }
+    split; [exact Huniq|]. split; [exact Hnamed|]. split; [exact Hold|]. split.
+    - intros n Hn1 Hs. apply Hnamed in Hn1. destruct (in_dec Z.eq_dec n named) as [Hin|Hnin].
+      + destruct (J2 n Hin Hs) as [v [Hv Hi]]. exists v. split; [now rewrite Hold|]. apply P. now left.
+      + destruct Hn1 as [?|Hn1]; [contradiction|]. destruct (Hnew n Hn1 Hnin Hs) as [v [Hv [Hi _]]]. eauto.
+    - intros n1 n2 H1 H2 S1 S2 Eq. apply Hnamed in H1, H2.
+      destruct (in_dec Z.eq_dec n1 nodes) as [I1|O1]; destruct (in_dec Z.eq_dec n2 nodes) as [I2|O2].
+      + exact (nodup_map_eq _ _ _ _ Huniq I1 I2 Eq).
+      + destruct H2 as [H2|?]; [|contradiction]. destruct (in_dec Z.eq_dec n1 named) as [N1|N1].
+        * apply J3; auto. now rewrite <- (Hold n1 N1), <- (Hold n2 H2).
+        * exfalso. destruct (Hnew n1 I1 N1 S1) as [v [Hv [_ Hns]]]. destruct (J2 n2 H2 S2) as [w [Hw Hi]].
+          rewrite (Hold n2 H2), Hv, Hw in Eq. apply ok_some in Eq || idtac. congruence.
+      + destruct H1 as [H1|?]; [|contradiction]. destruct (in_dec Z.eq_dec n2 named) as [N2|N2].
+        * apply J3; auto. now rewrite <- (Hold n1 H1), <- (Hold n2 N2).
+        * exfalso. destruct (Hnew n2 I2 N2 S2) as [v [Hv [_ Hns]]]. destruct (J2 n1 H1 S1) as [w [Hw Hi]].
+          rewrite (Hold n1 H1), Hv, Hw in Eq. congruence.
+      + destruct H1 as [H1|?]; [|contradiction]. destruct H2 as [H2|?]; [|contradiction].
+        apply J3; auto. now rewrite <- (Hold n1 H1), <- (Hold n2 H2).
+  Qed.
+
+  (** an atom met again in a later coarse node belongs to several fragments (fragid has more than one entry): true for
+      the coarse graphs annotate_fragments builds, where an atom is in the graph of every coarse node its fragid lists *)
+  Fixpoint shared_ok (F : Z -> option pyval) (seen : list Z) (groups : list (Z * list Z)) : Prop :=
+    match groups with
+    | [] => True
+    | g :: r => (forall n, In n (snd g) -> In n seen -> is_sh F n) /\ shared_ok F (seen ++ snd g) r
+    end.
+
+  Theorem groups_names_unique F : forall groups st st' seen, GraphOps.fold_res name_group2 groups st = Ok st' ->
+    (forall g, In g groups -> NoDup (snd g)) -> elemsE (ns_mol st) -> (forall k, node_get (ns_mol st) k (S "fragid") = F k) ->
+    shared_ok F seen groups -> (forall n, In n (ns_named st) -> In n seen) ->
+    (forall n, In n (ns_named st) -> is_sh F n -> exists v, name_in (ns_mol st) n = Some v /\ In v (ns_shn st)) ->
+    (forall n1 n2, In n1 (ns_named st) -> In n2 (ns_named st) -> is_sh F n1 -> is_sh F n2 ->
+                   name_in (ns_mol st) n1 = name_in (ns_mol st) n2 -> n1 = n2) ->
+    (forall g, In g groups -> NoDup (map (name_in (ns_mol st')) (snd g))) /\
+    (forall k, In k (ns_named st) -> name_in (ns_mol st') k = name_in (ns_mol st) k).
+  Proof.
+    induction groups as [|g0 r IH]; intros st st' seen H Hn HE HF Hs J1 J2 J3.
+    - cbn in H. apply ok_inj2 in H. subst. split; [intros g []|auto].
+    - cbn [GraphOps.fold_res] in H. destruct (name_group2 st g0) as [st1|] eqn:E1; cbn [bind] in H; [|discriminate H].
+      destruct Hs as [Hs0 Hsr]. destruct st as [[[mol fgs] named] shn], st1 as [[[mol1 fgs1] named1] shn1], g0 as [mn nodes].
+      unfold ns_mol, ns_named, ns_shn in *. cbn [fst snd] in *.
+      destruct (group_step F mol fgs named shn mn nodes mol1 fgs1 named1 shn1 E1 (Hn _ (or_introl eq_refl)) HE HF
+                           (fun n Hin Hnm => Hs0 n Hin (J1 n Hnm)) J2 J3) as (U & Hnamed & Hold & J2' & J3').
+      pose proof (name_group2_other_keys _ _ _ E1) as Hk. unfold ns_mol in Hk. cbn [fst] in Hk.
+      assert (elemsE mol1) as HE1 by (intros k el Hel; apply (HE k); rewrite <- Hk; [exact Hel|]; intros X; apply str_eqb_eq in X; vm_compute in X; discriminate).
+      assert (forall k, node_get mol1 k (S "fragid") = F k) as HF1
+        by (intros k; rewrite Hk; [apply HF|]; intros X; apply str_eqb_eq in X; vm_compute in X; discriminate).
+      destruct (IH (mol1, fgs1, named1, shn1) st' (seen ++ nodes) H (fun x Hx => Hn x (or_intror Hx)) HE1 HF1 Hsr) as [Ur Kr]; auto.
+      { intros n Hin. apply Hnamed in Hin as [Hin|Hin]; apply in_or_app; [left; now apply J1|now right]. }
+      unfold ns_mol, ns_named in *. cbn [fst snd] in *. split.
+      + intros g [<-|Hg]; [|now apply Ur]. cbn [snd]. erewrite map_ext_in; [exact U|]. intros k Hkn. apply Kr. apply Hnamed. now right.
+      + intros k Hkn. rewrite Kr by (apply Hnamed; now left). now apply Hold.
+  Qed.
+
+  (** names_unique_per_coarse_node, unconditional for the repaired set_atom_names_atomistic (/repo e15e5bd) *)
+  Theorem names_unique_per_coarse_node mol meta fgs mol' fgs' : set_atom_names mol meta fgs = Ok (mol', fgs') ->
+    (forall g, In g (fraglist_of meta fgs) -> NoDup (snd g)) -> elemsE mol ->
+    shared_ok (fun k => node_get mol k (S "fragid")) [] (fraglist_of meta fgs) ->
+    forall g, In g (fraglist_of meta fgs) -> NoDup (map (name_in mol') (snd g)).
+  Proof.
+    intros H Hn HE Hs g Hg. unfold set_atom_names in H.
+    destruct (GraphOps.fold_res name_group2 (fraglist_of meta fgs) (mol, fgs, [], [])) as [r|] eqn:Ef; cbn [bind] in H; [|discriminate H].
+    apply ok_inj2 in H. injection H as <- _.
+    assert (forall n : Z, In n (ns_named (mol, fgs, [], [])) -> In n []) as A1 by (intros n []).
+    assert (forall n : Z, In n (ns_named (mol, fgs, [], [])) -> is_sh (fun k => node_get mol k (S "fragid")) n ->
+              exists v, name_in (ns_mol (mol, fgs, [], [])) n = Some v /\ In v (ns_shn (mol, fgs, [], []))) as A2 by (intros n []).
+    assert (forall n1 n2 : Z, In n1 (ns_named (mol, fgs, [], [])) -> In n2 (ns_named (mol, fgs, [], [])) ->
+              is_sh (fun k => node_get mol k (S "fragid")) n1 -> is_sh (fun k => node_get mol k (S "fragid")) n2 ->
+              name_in (ns_mol (mol, fgs, [], [])) n1 = name_in (ns_mol (mol, fgs, [], [])) n2 -> n1 = n2) as A3 by (intros n1 n2 []).
+    destruct (groups_names_unique (fun k => node_get mol k (S "fragid")) _ _ _ [] Ef Hn HE (fun k => eq_refl) Hs A1 A2 A3) as [U _].
+    exact (U g Hg).
+  Qed.
+End Unique.
+
+(** a decidable sufficient condition for [elemsE] *)
+Definition elems_in (E : list pystr) (mol : graph) : bool :=
+  forallb (fun n => match aget (S "element") (na n) with Some (VStr e) => str_in e E | _ => true end) mol.
+Lemma elems_in_sound E mol : elems_in E mol = true -> elemsE E mol.
+Proof.
+  intros H k el Hk. unfold node_get in Hk. destruct (gfind k mol) as [n|] eqn:Eg; [|discriminate].
+  apply gfind_in_graph in Eg. unfold elems_in in H. rewrite forallb_forall in H. specialize (H n Eg). rewrite Hk in H.
+  unfold str_in in H. apply existsb_exists in H as [x [Hx Ex]]. apply str_eqb_eq in Ex. now subst.
+Qed.
 
 (** ---------------------------------------------------------------- element ++ str(index) determines the index *)
 Lemma digit_val_char d : (d < 10)%nat -> digit_val (digit_char d) = d.
